@@ -9,7 +9,7 @@ THEOREMS = [
     "Sb.C09.rewind_resets", "Sb.C09.fresh_is_rewound", "Sb.C09.seek_backwards_rewinds", "Sb.C09.seek_current",
     "Sb.C02.ended_held", "Sb.C02.loopBegin_depth", "Sb.C02.loopEnd_depth",
     "Sb.C09.answers_history_free", "Sb.C09.answers_up_to_latitude", "Sb.C09.answers_latitude_two_histories", "Sb.C09.fresh_shows_first_command",
-    "Sb.Proofs.Light.fresh_least", "Sb.Proofs.Light.at_between", "Sb.Proofs.Light.fresh_seek_exact", "Sb.C09.reachable_inv", "Sb.C09.budget_irrelevant", "Sb.C09.next_event_sound",
+    "Sb.Proofs.Light.fresh_least", "Sb.Proofs.Light.at_between", "Sb.Proofs.Light.fresh_seek_exact", "Sb.C09.reachable_inv", "Sb.C09.reachable_inv_upTo", "Sb.C09.budget_irrelevant", "Sb.C09.next_event_sound",
     "Sb.C09.sample_short", "Sb.C09.sample_not_instant_400",
     "Sb.Proofs.Light.step_sim", "Sb.Proofs.Light.execCommand_sim", "Sb.Proofs.Light.execCommand_post", "Sb.Proofs.Light.wake_step",
     "Sb.Proofs.Light.reset_step", "Sb.Proofs.Light.interior_step", "Sb.Proofs.Light.dead_step", "Sb.Proofs.Light.chain_good",
